@@ -7,6 +7,7 @@ CONSTANTS
   MsgVals = {1}
   Kinds = {"ok", "bad", "wrongmsg", "other", "stale"}
   MaxArrivals = 4
-  MaxPerParty = 2
+  MaxPerParty = 1
+  MaxInvalid = 2
 INVARIANT GPrint
 CHECK_DEADLOCK FALSE
